@@ -11,7 +11,7 @@ import (
 )
 
 func decoderReplay(w *World, o *Obligation, q *Query, _ map[string]string) (string, string) {
-	if q.Fn == nil {
+	if q.Fn == nil || q.Status != "sat" {
 		return "", ""
 	}
 	var site *regSite
